@@ -60,7 +60,9 @@ def replay (j : Json) : R Verdict := do
   | some "ok" => if !okExit then
       pf := ((if family == "kill-after" then "C07" else "C16"), s!"expected a successful run, got exit status {(fieldD obs "exitCode").compress}: {((fieldD obs "stderrTail").getStr?.toOption.getD "").takeEnd 160}") :: pf
   | some "fail" => if okExit then
-      pf := ((if family == "failure" then "C06" else "C16"), s!"expected a failing run ({family}), got exit status 0") :: pf
+      pf := ((if family == "failure" then "C06" else if family == "kill-zero" then "C07" else "C16"),
+             (if family == "kill-zero" then "with a per-evaluation limit of zero every evaluation exceeds its limit, yet the run succeeded: evaluations were not ended at their time limit"
+              else s!"expected a failing run ({family}), got exit status 0")) :: pf
       if family == "failure" then pf := ("C16", "a failing child did not make the tool fail") :: pf
   | _ => pure ()
   -- C16: stdout
